@@ -8,6 +8,7 @@ import (
 	"sort"
 	"strconv"
 	"strings"
+	"sync"
 
 	"github.com/uhn/ggql/pkg/ggql"
 
@@ -21,6 +22,7 @@ type Ev { f0: Int f1: Int f2: Int f3: Int }
 `
 
 type regLog struct {
+	mu    sync.Mutex
 	del   []sx.S
 	clean []int
 }
@@ -38,7 +40,9 @@ func (s *hsub) Send(v interface{}) error {
 		fail = s.sched[0]
 		s.sched = s.sched[1:]
 	}
+	s.log.mu.Lock()
 	s.log.del = append(s.log.del, sx.L(sx.A(s.uid), msgOf(v), sx.A(!fail)))
+	s.log.mu.Unlock()
 	if fail {
 		return fmt.Errorf("send failed")
 	}
@@ -46,7 +50,11 @@ func (s *hsub) Send(v interface{}) error {
 }
 
 func (s *hsub) Match(id string) bool { return s.pat < 0 || id == "e"+strconv.Itoa(s.pat) }
-func (s *hsub) Unsubscribe()        { s.log.clean = append(s.log.clean, s.uid) }
+func (s *hsub) Unsubscribe() {
+	s.log.mu.Lock()
+	s.log.clean = append(s.log.clean, s.uid)
+	s.log.mu.Unlock()
+}
 
 // msgOf canonicalises a delivered message: (field index, value) sorted by index.
 func msgOf(v interface{}) sx.S {
@@ -89,8 +97,7 @@ func (e *evObj) Resolve(f *ggql.Field, _ map[string]interface{}) (interface{}, e
 }
 
 type subRootObj struct {
-	log  *regLog
-	made map[int]*hsub
+	log *regLog
 }
 
 func (s *subRootObj) Resolve(f *ggql.Field, args map[string]interface{}) (interface{}, error) {
@@ -101,7 +108,6 @@ func (s *subRootObj) Resolve(f *ggql.Field, args map[string]interface{}) (interf
 	for _, c := range sc {
 		h.sched = append(h.sched, c == '1')
 	}
-	s.made[h.uid] = h
 	return ggql.NewSubscription(h, f, args), nil
 }
 
@@ -120,7 +126,6 @@ func (s *c19Schema) Resolve(f *ggql.Field, _ map[string]interface{}) (interface{
 	return nil, nil
 }
 
-func canonMsg(sel []sx.S) {}
 
 func c19Exec(input sx.S) (obs sx.S) {
 	defer func() {
@@ -129,7 +134,7 @@ func c19Exec(input sx.S) (obs sx.S) {
 		}
 	}()
 	log := &regLog{}
-	sro := &subRootObj{log: log, made: map[int]*hsub{}}
+	sro := &subRootObj{log: log}
 	root := ggql.NewRoot(&c19Schema{Subscription: sro})
 	if err := root.ParseString(c19SDL); err != nil {
 		return sx.L("schema-error", sx.Hex(err.Error()))
@@ -140,22 +145,7 @@ func c19Exec(input sx.S) (obs sx.S) {
 		log.del, log.clean = nil, nil
 		switch sx.Head(o) {
 		case "sub":
-			var b strings.Builder
-			b.WriteString("subscription {")
-			for i, s := range ol[1:] {
-				sl := sx.List(s)
-				sched := ""
-				for _, x := range sx.List(sl[4]) {
-					sched += x.(string)
-				}
-				fmt.Fprintf(&b, " a%d: w(p: %d, s: \"%s\", u: %d) {", i, sx.Int(sl[2]), sched, sx.Int(sl[1]))
-				for _, f := range sx.List(sl[3]) {
-					fmt.Fprintf(&b, " f%d", sx.Int(f))
-				}
-				b.WriteString(" }")
-			}
-			b.WriteString(" }")
-			res := root.ResolveString(b.String(), "", nil)
+			res := root.ResolveString(subRequest(ol[1:]), "", nil)
 			if _, has := res["errors"]; has || res["data"] != nil {
 				outs = append(outs, sx.L("rsub-unexpected", sx.Hex(fmt.Sprint(res))))
 			} else {
@@ -178,6 +168,26 @@ func c19Exec(input sx.S) (obs sx.S) {
 		}
 	}
 	return outs
+}
+
+// subRequest renders the subscription operation registering the given subscribers.
+func subRequest(subs []sx.S) string {
+	var b strings.Builder
+	b.WriteString("subscription {")
+	for i, s := range subs {
+		sl := sx.List(s)
+		sched := ""
+		for _, x := range sx.List(sl[4]) {
+			sched += x.(string)
+		}
+		fmt.Fprintf(&b, " a%d: w(p: %d, s: \"%s\", u: %d) {", i, sx.Int(sl[2]), sched, sx.Int(sl[1]))
+		for _, f := range sx.List(sl[3]) {
+			fmt.Fprintf(&b, " f%d", sx.Int(f))
+		}
+		b.WriteString(" }")
+	}
+	b.WriteString(" }")
+	return b.String()
 }
 
 // registryOrder reads the live registry through the verif accessor (uids in registry order).
